@@ -3,6 +3,8 @@
 # copy of /verif (/tmp/mv/verif, harness pointed at /tmp/mv/repo) so that /repo itself is not disturbed.
 id=$1; shift
 MV=${MV:-/tmp/mv}; R=$MV/repo; V=$MV/verif
+# scratch worktrees are created on demand (remove them with `git worktree remove --force` when done)
+mkdir -p $MV; [ -d $R ] || git -C /repo worktree add -q --detach $R HEAD; [ -d $V ] || git -C /verif worktree add -q --detach $V HEAD
 git -C $R checkout -q -- . 
 git -C $R checkout -q --detach $(git -C /repo rev-parse HEAD)
 git -C $V checkout -q -- . ; git -C $V checkout -q --detach $(git -C /verif rev-parse HEAD)
